@@ -633,7 +633,7 @@ def check(run: Run):
         if "read" in stages:
             import read_C01
 
-            read_C01.stage_read(run, scratch, tier, totals, tm)
+            read_C01.stage_read(run, scratch, tier, totals, tm, warm=None if "classname" in G else warmup)
         if tier == "thorough" and "deep" in stages:
             # longer roots (5-10 residues, offsets 0 and 7): seeded random walks of the same model through views that
             # still display >= 2 residues; TLC evaluates (and emits) the full fan-out of every view it visits
